@@ -87,7 +87,8 @@ def evaluate(ctx, cases):
             if c.get('lab', 0):
                 df = df.copy(); df.index = (np.arange(len(df)) % 3) if c['lab'] == 1 else (np.arange(len(df)) + 5)
             try:
-                got = implutil.twice(lambda: implutil.quiet(limit_df, df, fs, start=a, stop=b, reset_indices=c['reset']), [df], 'limit_df'); gerr = None
+                na, nb = ((None if a is None else np.float64(a)), (None if b is None else np.float64(b))) if c['seed'] % 3 == 0 else (a, b)      # numpy-scalar limits
+                got = implutil.twice(lambda: implutil.quiet(limit_df, df, (float(fs) if c['seed'] % 2 else fs), start=na, stop=nb, reset_indices=c['reset']), [df], 'limit_df'); gerr = None
             except Exception as e:
                 got, gerr = None, type(e).__name__ + ': ' + str(e)[:100]
             try:
@@ -188,7 +189,7 @@ def evaluate(ctx, cases):
                 labels = lab_flat + ['extra']
             copies = [t.copy() for t in flat]
             try:
-                res = implutil.quiet(flatten_dfs, tabs, labels); err = None
+                res = implutil.quiet(flatten_dfs, tabs, (np.array(labels) if c['seed'] % 3 == 1 and not c['bad_labels'] else labels)); err = None      # labels as a list or as an ndarray
             except Exception as e:
                 res, err = None, type(e).__name__
             if c['bad_labels']:
